@@ -87,6 +87,26 @@ CHECKS = {
    text='Static rule discharge of the structural conditions that make list decoding compositional and attribute order irrelevant. Three known findings (label stack window x2, ::/0 pair). Equality on concrete pools is not decided.',
    design='DESIGN.md section 3 C15',
    note='Syntactic def-use on loop bodies; comprehension variables excluded.'),
+ 'C16': dict(
+   technique='decorator-stack rule over every Flask route (AST), shape rules for the password callback and the establishment gate, reachability of BGP sends through yabgp.api.utils, forwarded-argument dataflow of the update view',
+   text='Static rule discharge: every /peer/ route has auth.login_required directly inside blueprint.route, the password callback returns the configured password only for the configured user, every view that can reach a BGP send is gated by makesure_peer_establish (which calls the view only for Established), the update view forwards NLRI/withdraw unchanged and touches attributes only as documented, and success is reported only from the send result on the tracked protocol. Flask / Flask-HTTPAuth semantics are trusted.',
+   design='DESIGN.md section 3 C16',
+   note='Trusted: Flask decorator order semantics, HTTPBasicAuth.get_password / login_required.'),
+ 'C17': dict(
+   technique='table closure over folded constant tables and the if/elif chains of decoder, encoder and both REST views; structural comparison of the two recombination copies; normaliser/lookup agreement for well-known names; abstract interpretation of ExtCommunity.construct per code for the 8-octet size',
+   text='Static rule discharge of necessary conditions: every text name the decoder renders is translated by both views to a code the encoder handles, the name tables are inverse, the two view copies have identical arms, every well-known community name survives the encoder lookup, no decoder path raises on every input, every code encodes to 8 octets. Value-level identity of the text is not decided.',
+   design='DESIGN.md section 3 C17',
+   note='Trusted: constant folding of yabgp/common/constants.py by sa/front.py.'),
+ 'C19': dict(
+   technique='per-item case analysis by abstract interpretation of each RIB / version updater on a one-element update with an open table (path per present/absent/equal case, concrete counter deltas and recorded mutations), table rows for the flush, guard/dominance and who-may-write AST rules',
+   text='Static rule discharge: for the two IPv4 RIB updaters and the flowspec/VPN version updaters (both directions) every case of the per-item table moves the counter and the table exactly as the model requires, withdrawals precede announcements, both RIBs are reset on every connectionMade/connectionLost path, and the RIB is reached only by well-formed IPv4 UPDATEs under the option. By induction over items and updates this gives the history property for the dictionary model.',
+   design='DESIGN.md section 3 C19',
+   note='Same trusted base as C01; the radix tree mirror is outside the statement.'),
+ 'C20': dict(
+   technique='AST must-call / pairing rules on DefaultHandler (one write_msg per callback, write-flush-fsync-increment pairing and order), bytes-payload source scan over the decoders, recovery-path exit and rotation rules',
+   text='Static rule discharge of the structural conditions; crash points cannot be enumerated statically. What holds: one line per event with keys t/seq/type/msg, flush+fsync and exactly one sequence increment per line, no other writer, resume at recovered+1 in append mode. What fails today (6 known findings): the record is streamed with json.dump (not atomic), decoders can put bytes into the payload, recovery exits on a torn tail, recovery ignores all but the newest file.',
+   design='DESIGN.md section 3 C20',
+   note='A crash-point enumeration is outside this technique; the atomic-line and recovery rules are necessary conditions of the crash clauses.'),
 }
 
 NOT_APPLICABLE = {}
